@@ -314,7 +314,10 @@ _odd_names = st.one_of(st.sampled_from(["metadata", "bogus", "x", "eml:eml", "",
                        st.text(st.characters(blacklist_categories=("Cs",)), min_size=1, max_size=5))
 _typed_strings = st.sampled_from(["x", "5", "-91", "181", "2020", "2020-13-01", "12:00", "nan", "inf", "1e400", "abc",
                                   "http://a.b/c", "ftp:x", "a <b> & \"c\" 'd'", "  ", "\xa0 ", "", "0", "-0.0", "1_0",
-                                  "&amp;", "<para>p</para>", "read", "meter", "column", "all"])
+                                  "&amp;", "<para>p</para>", "read", "meter", "column", "all",
+                                  # format-hostile and edge-case text (message formatting, parsers)
+                                  "{", "}", "{}", "{0}", "{x}", "%", "%s", "%d", "%(a)s", "\\", "\x00", "a\nb", "\n", "1\n",
+                                  "٣", "１２", "x" * 300, "12:00\n", "2020-01-01\n", "http://a.b/\n", "'", "\""])
 _any_content = st.one_of(st.none(), _typed_strings, _unicode)
 
 
